@@ -83,11 +83,11 @@ const (
 	ContractStorageBased
 )
 
-// Ledger is the interface required from Blockchain for Module to operate.
 // headerVerificationGasLimit is the GAS limit of a block witness verification
 // (the value the ledger uses for headers).
 const headerVerificationGasLimit = 3_00000000
 
+// Ledger is the interface required from Blockchain for Module to operate.
 type Ledger interface {
 	AddHeaders(...*block.Header) error
 	BlockHeight() uint32
@@ -572,12 +572,14 @@ func (s *Module) AddBlock(block *block.Block) error {
 	if !bytes.Equal(hdr.Script.InvocationScript, block.Script.InvocationScript) ||
 		!bytes.Equal(hdr.Script.VerificationScript, block.Script.VerificationScript) {
 		// Witnesses are not unique (any M of N validators make one), so the
-		// block can carry another valid one.
-		prev, err := s.bc.GetHeader(block.PrevHash)
-		if err != nil {
-			return fmt.Errorf("invalid block: witness differs from the one of the verified header, failed to get header %d to check it: %w", block.Index-1, err)
+		// block can carry another valid one. The previous header can be
+		// missing already (untraceable or below the trusted one), the
+		// verified header's script has the same hash then.
+		consensus := hdr.Script.ScriptHash()
+		if prev, err := s.bc.GetHeader(block.PrevHash); err == nil {
+			consensus = prev.NextConsensus
 		}
-		if _, err = s.bc.VerifyWitness(prev.NextConsensus, &block.Header, &block.Script, headerVerificationGasLimit); err != nil {
+		if _, err = s.bc.VerifyWitness(consensus, &block.Header, &block.Script, headerVerificationGasLimit); err != nil {
 			return fmt.Errorf("invalid block: witness differs from the one of the verified header: %w", err)
 		}
 	}
